@@ -47,8 +47,90 @@ def exen_pairs(ctx, prog, res):
                                    "outline_from": S.outline(a), "outline_to": S.outline(b)})
 
 
+def razed_clone_case(rng):
+    """A moot framer reared as insular clone(s) into frame b of the main framer and razed while b is still active (raze
+    in the enter / recur / renter context of b or of a frame above it, not in the default exit context where the frame's
+    auxiliaries have been exited already), with or without a `done me` of the clone before the raze.  A razed clone is
+    no auxiliary of any frame any more, so none of its frames may stay entered."""
+    depth = rng.randint(1, 3)
+    names = ["x", "y", "z"][:depth]
+    done_at = rng.choice([None, None, ("x", "enter"), ("x", "recur"), (names[-1], "enter"), (names[-1], "recur")])
+    hop = depth == 1 and rng.random() < 0.4       # a second top frame the clone moves to before it is done / razed
+    lines = ["house h", "  framer main be active first a", "    frame top", "    frame a in top"]
+    nclones = rng.choice([1, 1, 2])
+    for k in range(nclones):
+        lines.append("      rear mo %sin frame b" % rng.choice(["as mine be aux ", "", "be aux "]) if k == 0
+                     else "      rear mo in frame b")
+    lines += ["      go b", "    frame b in top"]
+    for c in ("enter", "exit"):
+        lines.append('      do vf rec with tag "main.b.%s" at %s' % (c, c))
+    raze_in = rng.choice(["b", "b", "top"])
+    raze_ctx = rng.choice(["recur", "recur", "enter", "precur"])
+    who = rng.choice(["all", "all", "first", "last"])
+    raze = ["      %s" % raze_ctx, "      raze %s%s" % (who, rng.choice(["", " in frame b"]) if raze_in == "b" else " in frame b"), "      native"]
+    wait = rng.randint(1, 4)
+    if raze_in == "b":
+        lines += raze
+    lines += ["      go c if recurred >= %d" % (wait + rng.randint(1, 3)), "    frame c", "      bid stop all"]
+    if raze_in == "top":
+        # the raze stands in the frame above and waits for a while (a conditional razer: `raze` runs when .go is set)
+        i = lines.index("    frame top")
+        lines[i + 1:i + 1] = ["      %s" % raze_ctx, "      raze %s in frame b" % who, "      native"]
+    lines += ["  framer mo be moot first x"]
+    for i, n in enumerate(names):
+        lines.append("    frame %s%s" % (n, (" in %s" % names[i - 1]) if i else ""))
+        for c in ("enter", "exit"):
+            lines.append('      do vf rec with tag "mo.%s.%s" at %s' % (n, c, c))
+        if done_at and done_at[0] == n:
+            lines += ["      %s" % done_at[1], "      done me", "      native"]
+        if hop and n == "x":
+            lines.append("      go w if recurred >= 1")
+    if hop:
+        lines += ["    frame w"] + ['      do vf rec with tag "mo.w.%s" at %s' % (c, c) for c in ("enter", "exit")]
+        if rng.random() < 0.5:
+            lines.append("      done me")
+    return {"text": "\n".join(lines) + "\n", "done_at": done_at, "raze_ctx": raze_ctx, "raze_in": raze_in, "who": who,
+            "nclones": nclones, "depth": depth}
+
+
+def razed_clone_check(ctx, case):
+    from vf.flo import runner
+    res = runner.run_text(case["text"], maxticks=40)
+    if not res.built:
+        ctx.inconclusive_case("razed clone program did not build: %s" % (res.build_msgs[-1:],))
+        return
+    if res.exc is not None:
+        ctx.fail("razed-clone/run-raised/%s" % type(res.exc).__name__, "run raised %r" % (res.exc,), {"program": case["text"]})
+        return
+    ctx.event(len(res.trace))
+    state = {}
+    order_ok = True
+    for e in res.trace:
+        if e["ctx"] not in ("enter", "exit"):
+            continue
+        k = (e["framer"], e["frame"])
+        was = state.get(k, False)
+        if (e["ctx"] == "enter") == was:
+            order_ok = False
+        state[k] = e["ctx"] == "enter"
+    clones = sorted(set(k[0] for k in state if k[0] != "main"))
+    left = sorted("%s.%s" % k for k, v in state.items() if v)
+    ctx.case(case["text"], nontrivial=bool(clones), sample=None)
+    ctx.hit("razed_clone_histories")
+    if case["done_at"] and clones:
+        ctx.hit("razed_clone_histories_with_a_done_clone")
+    ctx.check(order_ok, "razed-clone/enter-exit-do-not-alternate", "enter and exit actions of a frame do not alternate",
+              lambda: {"program": case["text"], "trace": [(e["tick"], e["framer"], e["frame"], e["ctx"]) for e in res.trace]})
+    ctx.check(not left, "razed-clone/frames-still-entered-after-the-run" + ("/clone-was-done" if case["done_at"] else ""),
+              "after the run ended (stop, final sweep) these frames were entered and never exited: %s" % left,
+              lambda: {"program": case["text"], "left_entered": left, "case": {k: v for k, v in case.items() if k != "text"},
+                       "trace": [(e["tick"], e["framer"], e["frame"], e["ctx"]) for e in res.trace]})
+
+
 def worker(ctx, job):
     from vf.flo import runner, monitors
+    for seed in job.get("razed", []):
+        razed_clone_check(ctx, razed_clone_case(random.Random(seed)))
     # "a transition first runs its transit actions, then exits": transitions guarded by `is changed` / `is updated`
     # out of frames whose exit action writes the watched share -- the marker rule model of the C20 check decides (a
     # snapshot taken after the exit action instead of before it shows as a later change that is not seen)
@@ -101,7 +183,11 @@ def run(ctx):
     from vf.checks import c20
     opts = c20.need_opts()
     transit = [c20.random_case(ctx.rng, opts, exitwrites=True) for _ in range(ctx.pick(480, 9600))]
-    ctx.shard([{"items": items[i::16], "transit": transit[i::16]} for i in range(16)], timeout=ctx.pick(300, 1500))
+    razed = [ctx.rng.randrange(1 << 30) for _ in range(ctx.pick(320, 8000))]
+    ctx.shard([{"items": items[i::16], "transit": transit[i::16], "razed": razed[i::16]} for i in range(16)],
+              timeout=ctx.pick(300, 1500))
+    ctx.floor("razed_clone_histories", 200)
+    ctx.floor("razed_clone_histories_with_a_done_clone", 60)
     ctx.floor("exit_writes", 200)
     for k in ("self", "ancestor", "descendant", "same_tree", "other_tree", "start", "stop_abort"):
         ctx.floor("trans_" + k, 10)
